@@ -45,6 +45,7 @@ GATES = {
     "der-padding-branches": ["der:r-high-bit", "der:r-no-high-bit", "der:short-int"],
     "digest-boundaries": ["digest:z>=n", "digest:z=n", "digest:z=0"],
     "object-reuse-histories": ["reuse:objects-reused"],
+    "crafted-valid-tuples": ["crafted:uG==vP(doubling-inside-verify)", "crafted:x(R)-in-[n,p)"],
 }
 
 _state = {"tamper": None, "injected": False}
@@ -243,7 +244,13 @@ def one_pair(ctx, rng, d, z, tampers, Injected):
         ctx.count("digest:z=n")
     if z >= N:
         ctx.count("digest:z>=n")
-    pk = PrivateKey(d)
+    ko = outcome(PrivateKey, d)
+    ctx.monitor("key-constructor")
+    if ko[0] != "ok":
+        # every secret in [1, n-1] is a private key: refusing one makes signing incomplete
+        ctx.violation("key-constructor-refuses-valid-secret", f"PrivateKey({d:#x}) raised {ko[1]}", {"op": "sign", "secret": d, "z": z})
+        return
+    pk = ko[1]
     _state["tamper"] = "valid"
     o = outcome(pk.sign, z)
     if o[0] != "ok":
@@ -339,11 +346,47 @@ def object_reuse_history(ctx, rng):
     ctx.case(("reuse", d, zs))
 
 
+def crafted_tuples(ctx, rng):
+    """Valid tuples that random signing never produces (each is decided by the verify contract):
+    (a) u*G == v*P, so the final addition inside verification is a *doubling* of two equal points held in
+        different objects:  z = r*d, s = 2*r*d/k;
+    (b) R = u*G + v*P has an x coordinate in [n, p): the equation compares x mod n with r.  Built without knowing a
+        discrete logarithm by public-key recovery: choose R, s, z, set r = x(R) - n and Q = r^-1 (s*R - z*G).
+        Its invalid twin carries r' = x(R) >= n."""
+    from buidl.pecc import S256Point, Signature
+
+    d, k = rand_secret(rng), rand_secret(rng)
+    r = ec.mul(k)[0] % N
+    z = r * d % N
+    s = 2 * r * d * pow(k, -1, N) % N
+    if s and r:
+        if s > N // 2 and rng.random() < 0.5:
+            s = N - s
+        Q = ec.mul(d)
+        _state["tamper"] = "valid"
+        ctx.count("crafted:uG==vP(doubling-inside-verify)")
+        outcome(S256Point(Q[0], Q[1]).verify, z, Signature(r, s))
+    xs = [x for x in range(N + 1, N + 80) if ec.lift_x(x) is not None]
+    x = xs[rng.randrange(len(xs))]
+    R = ec.lift_x(x, odd=bool(rng.getrandbits(1)))
+    r, s, z = x - N, rand_secret(rng), rand_digest(rng)
+    Q = ec.mul(pow(r, -1, N), ec.add(ec.mul(s, R), ec.neg(ec.mul(z))))
+    if Q is not None:
+        pt = S256Point(Q[0], Q[1])
+        _state["tamper"] = "valid"
+        ctx.count("crafted:x(R)-in-[n,p)")
+        outcome(pt.verify, z, Signature(r, s))
+        _state["tamper"] = "r=x(R)>=n"
+        outcome(pt.verify, z, Signature(x, s))
+    _state["tamper"] = None
+
+
 def run_shard(desc, ctx):
     ec.selfcheck()
     install()
     for _ in range(1 if ctx.tier == "quick" else 6):
         object_reuse_history(ctx, ctx.rng("reuse", _))
+        crafted_tuples(ctx, ctx.rng("crafted", _))
     Injected = _mk_injected_cls()
     idx, n, per = desc["idx"], desc["n"], desc["per"]
     rng = ctx.rng()
